@@ -21,6 +21,7 @@ RULES = {
     "R-04.5": "Parser reads are bounded: get_bytes/seek raise FormError out of bounds and every get_uintN/get_struct unpacks exactly calcsize(format) octets",
     "R-04.6": "every `while` loop on a parse path consumes input (or strictly decreases a measure) on every trip",
     "R-04.8": "values returned by the parsers can be rendered: the constructor validators that back every encoder-side `assert l < N` / struct width bound the value they return (shared with C05 R-05.5; the per-encoder interval check is C05 R-05.1)",
+    "R-04.10": "what the wire parser accepts can be printed: integer fields printed through an enum's to_text were bounded to that enum's range by the constructor (C05 R-05.11 adopted) - otherwise from_wire succeeds and to_text of the result raises a bare ValueError",
     "R-04.9": "a failed record leaves the parser usable: Parser.restrict_to restores the previous end in a `finally` (C02 R-02.2 restrict-shape adopted), otherwise every record after a damaged one is reported as malformed under continue_on_error",
     "R-04.7": "continue_on_error: failures after the header are recorded with the parser offset and the reader resynchronises; Truncated is raised only on request",
 }
@@ -502,6 +503,7 @@ def run(model, rep, tier):
     check_validators(model, rep, "R-04.8")
     rep.assume("AttributeError/TypeError from None-dereference or wrong attribute are outside the implicit-raise table (pyright on the pinned tree reports none in the parse zone)")
     rep.assume("third-party idna / hashlib / hmac behave as documented; user callbacks (callable keyring, GSSAPI context) are outside the analysed program")
+    rep.share(model, "C05", {"R-05.11"}, "R-04.10", "every rdata constructor runs inside the FormError wrapper of from_wire; text production of the parsed value does not")
     rep.share(model, "C02", {"R-02.2"}, "R-04.9", "rdata and EDNS options are parsed inside `with parser.restrict_to(rdlen)`; continue_on_error keeps using the same parser after a failure", only=lambda o: o.stmt == "restrict-shape")
     rep.meta["explanation"] = (
         "Interprocedural exception-escape analysis: explicit raises everywhere, a frozen table of implicit raisers (subscripts, int(), struct, encode/decode, assert, next, division) inside the parse zone, "
